@@ -16,13 +16,16 @@ Local Open Scope Z_scope.
 Inductive cop :=
 | CDeclare (q : bytes) | CPublish (body : bytes) (mand : bool) | CGet
 | CClose (code : Z) | CAck | CConsume (t : bytes) | CCancel (t : bytes)
-| COpenChan | CCheck | CConnClose.
+| COpenChan | CCheck | CConnClose | CConnOpen.
 
 Inductive cres :=
 | CRNone | CRBool (b : bool) | CRName (q : bytes) | CRChan (id : nat) | CRTag (t : bytes)
 | CRMsg (body : bytes) | CRErr (e : err) | CROther | CRHang.
 
-Record cev := { ce_thread : nat; ce_idx : nat; ce_chan : nat; ce_op : cop; ce_res : cres }.
+Record cev := { ce_thread : nat; ce_idx : nat; ce_chan : nat; ce_op : cop; ce_res : cres;
+                ce_dur : Z;                         (* virtual milliseconds the call took *)
+                ce_ret : st * (nat * nat * nat) }.  (* at the moment it returned: connection state,
+                                                       connected sockets, live library threads, armed timers *)
 Record wfr := { wf_chan : nat; wf_name : oname; wf_str : bytes; wf_num : Z }.
 (* wf_num: reply code of a close, announced size of a header, LENGTH of a body frame *)
 Record cobs := {
@@ -135,6 +138,27 @@ Definition conc_connclose_code_ok (i : cscenario) (o : cobs) : bool :=
   | _ => true
   end.
 
+(* ---------- C06: the transport dies while several threads work ---------- *)
+Definition conc_fault_ok (i : cscenario) (o : cobs) : bool :=
+  (* nobody blocks for ever, nothing but AMQPConnectionError comes out *)
+  forallb (fun e => match ce_res e with
+                    | CRErr er => ekind_eqb (e_kind er) EConn
+                    | r => completed r
+                    end) (co_events o) &&
+  (* and promptly: no call outlives the fault by more than the polling slack (virtual time) *)
+  forallb (fun e => ce_dur e <=? 2500) (co_events o).
+
+(* a socket that dies during the handshake: open() raises AMQPConnectionError at once *)
+Definition conc_openfault_ok (i : cscenario) (o : cobs) : bool :=
+  forallb (fun e => match ce_op e with
+                    | CConnOpen => match ce_res e with
+                                   | CRErr er => ekind_eqb (e_kind er) EConn && (ce_dur e <=? 1500)
+                                   | _ => false
+                                   end
+                    | _ => true
+                    end) (co_events o) &&
+  match co_inv o with (0, 0, 0)%nat => true | _ => false end.
+
 (* ---------- C01: frames on the wire ---------- *)
 (* per channel: Publish, Header n, bodies adding up to n - with nothing of that channel in between *)
 Fixpoint wire_chan_ok (fuel : nat) (l : list wfr) : bool :=
@@ -177,6 +201,10 @@ Definition conc_teardown_ok (i : cscenario) (o : cobs) : bool :=
   (* every close() came back without raising; every other call returned or raised an AMQP error *)
   forallb (fun e => if is_conn_close e then match ce_res e with CRNone => true | _ => false end
                     else completed (ce_res e)) (co_events o) &&
+  (* at the moment EACH close() returned the connection was closed and nothing was running *)
+  forallb (fun e => if is_conn_close e
+                    then match ce_ret e with (CLOSED, (0, 0, 0)%nat) => true | _ => false end
+                    else true) (co_events o) &&
   (* closed, unregistered, nothing left running *)
   st_eqb (co_conn o) CLOSED &&
   forallb (fun cs => st_eqb (sn_state (snd cs)) CLOSED && negb (sn_registered (snd cs))) (co_final o) &&
